@@ -56,4 +56,29 @@ def run(name, tier, seed):
         obs.append({'name': 'zipf_sweep', 'description': '[C06][native-sweep] %d samples of the real generators (random ranges incl. negative/near-limit bounds, engine words on/next to CDF breakpoints) satisfy the bracket property' % n,
                     'status': 'SUCCESS', 'tags': ['C06', 'native-sweep'], 'function': 'zipf_replay sweep', 'line': None, 'file': 'zipf_replay.cpp', 'weight': n})
         return obs
+    if name in ('zipf_seam_small', 'zipf_purity'):
+        exe, err = zipf_exe()
+        if exe is None:
+            raise RuntimeError('build failed: ' + err)
+        runs = [('seam-small', ty) for ty in ('u64', 'i32')] if name == 'zipf_seam_small' else [('purity', 'approx', 'u32'), ('purity', 'exact', 'i64'), ('purity', 'approx', 'i64'), ('purity', 'exact', 'u32')]
+        tag = 'seam-small-n' if name == 'zipf_seam_small' else 'purity'
+        ptag = 'C06' if name == 'zipf_seam_small' else 'C19'
+        n = 0
+        for r in runs:
+            rc, out = replayers.run([exe] + list(r), 900)
+            lines = [l for l in out.split('\n') if l.startswith('REPLAY-FAIL')]
+            for l in lines[:3]:
+                obs.append({'name': name, 'description': '[%s][%s] %s' % (ptag, tag, l[len('REPLAY-FAIL: '):]), 'status': 'FAILURE', 'tags': [ptag, tag],
+                            'function': 'zipf_replay ' + r[0], 'line': None, 'file': 'zipf_replay.cpp',
+                            'native': {'reproduced': True, 'command': 'zipf_replay ' + ' '.join(r), 'observed': [l]}})
+            if rc not in (0, 1):
+                obs.append({'name': name, 'description': '[%s][%s] the real generator terminated abnormally in zipf_replay %s (rc=%d): %s' % (ptag, tag, ' '.join(r), rc, ' '.join(out[-200:].split())),
+                            'status': 'FAILURE', 'tags': [ptag, tag], 'function': 'zipf_replay ' + r[0], 'line': None, 'file': 'zipf_replay.cpp',
+                            'native': {'reproduced': True, 'command': 'zipf_replay ' + ' '.join(r), 'observed': [out[-300:]]}})
+            n += 1
+        what = ('GetCDF(99) <= GetCDF(100) for 10 bin counts in [101, 20000] x 301 skews x 2 types' if name == 'zipf_seam_small' else
+                'rerun / equal parameters / interleaved other generator / copy / move / copy-assignment / one const generator shared by 8 threads / max < min rejected, for 2 classes x 2 types x 36 parameter sets')
+        obs.append({'name': name, 'description': '[%s][%s] %s' % (ptag, tag, what), 'status': 'SUCCESS', 'tags': [ptag, tag],
+                    'function': 'zipf_replay', 'line': None, 'file': 'zipf_replay.cpp', 'weight': 3010 * 2 if name == 'zipf_seam_small' else 36 * 4 * 9})
+        return obs
     raise RuntimeError('unknown native check %s' % name)
